@@ -54,10 +54,12 @@ AlphaNested == AlphaOf([Query |-> {"o", "on", "lnn"}, T |-> {"sn", "on", "lo", "
 AlphaAbstractF == AlphaOf([Query |-> {"p", "np", "lp", "lu"}, P |-> {"s"}, A |-> {"an"}, B |-> {"d"}, U |-> {"__typename"}])
 AlphaPairs == AlphaOf([Query |-> {"o", "on", "s"}, T |-> {"s", "sn"}])
 AlphaMutF == AlphaOf([Mutation |-> {"m1", "m2", "m3", "m4"}, T |-> {"sn"}])
-AlphaArgsF == AlphaOf([Query |-> {"g", "gd", "o", "on"}, T |-> {"g", "s"}])
+AlphaArgsF == AlphaOf([Query |-> {"g", "o", "on"}, T |-> {"g", "s"}])
+AlphaGdF == AlphaOf([Query |-> {"gd", "gd2", "on"}, T |-> {"s"}])
 \* a nullable variable with a default is allowed at a non-null argument; an explicit null then
 \* fails the argument coercion of that field at run time
 ArgOptsFail == [ f |-> {<<>>}, g |-> {<<ArgV("r", Lit("var", "y"))>>, <<ArgV("r", Lit("int", 2))>>},
+                 gd2 |-> {<<>>, <<ArgV("a", Lit("int", 1))>>},
                  gd |-> {<<ArgV("a", Lit("int", 13))>>, <<ArgV("a", Lit("int", 1))>>, <<ArgV("b", Lit("str", "q")), ArgV("a", Lit("int", 13))>>} ]
 AlphaSched == AlphaOf([Query |-> {"o", "lo", "s"}, T |-> {"s", "o"}])
 AlphaSchedF == AlphaOf([Query |-> {"o", "on", "lnn", "s"}, T |-> {"s", "sn"}])
@@ -99,6 +101,10 @@ AlphaAll == AlphaOf([Query |-> {"o", "on", "lo", "lnn", "ll", "p", "lp", "u", "l
 \* merged sub-selections differing per runtime type (lists of an abstract type, type-conditioned fragments)
 AlphaMerge == AlphaOf([Query |-> {"lp"}, P |-> {"o"}, A |-> {"o"}, B |-> {"o"}, T |-> {"s", "d"}])
 AlphaMerge2 == AlphaOf([Query |-> {"lo", "o"}, T |-> {"o", "s", "d"}])
+AlphaAllF == [AlphaAll EXCEPT !.Query = @ \cup {"gd", "gd2"}]
+ArgOptsStdF == [x \in DOMAIN ArgOptsStd \cup {"gd", "gd2"} |->
+                  IF x = "gd" THEN {<<ArgV("a", Lit("int", 13))>>, <<ArgV("a", Lit("int", 1))>>}
+                  ELSE IF x = "gd2" THEN {<<>>, <<ArgV("a", Lit("int", 1))>>} ELSE ArgOptsStd[x]]
 AlphaSchedMA == AlphaOf([Mutation |-> {"mg", "mgn", "m3", "m1"}, T |-> {"s"}])
 ArgOptsMA == [ f |-> {<<>>}, g |-> {<<ArgV("r", Lit("var", "y"))>>}, mg |-> {<<ArgV("r", Lit("var", "y"))>>, <<ArgV("r", Lit("int", 2))>>}, mgn |-> {<<ArgV("r", Lit("var", "y"))>>} ]
 \* the same field at several places with different arguments (argument dictionaries must not be shared)
